@@ -29,12 +29,18 @@ fn csv(layer: usize, words: &[W]) -> String {
 }
 
 fn load(layers: &[Vec<W>]) -> Result<Rc<JapaneseDictionary>, String> {
+    load_with(layers, "")
+}
+
+/// `rewrite`: JSON list items of path-rewrite plugins ("" for none)
+fn load_with(layers: &[Vec<W>], rewrite: &str) -> Result<Rc<JapaneseDictionary>, String> {
     let res = dicts::resource_dir("c09", &[("char.def", "/repo/sudachi/tests/resources/char.def"), ("rewrite.def", "/repo/sudachi/tests/resources/rewrite.def")]);
     let sys = dicts::build_system(csv(0, &layers[0]).as_bytes(), b"1 1\n0 0 0\n").map_err(|e| format!("{:?}", e))?;
     let mut users = Vec::new();
     for (i, l) in layers.iter().enumerate().skip(1) { users.push(dicts::build_user(&sys, csv(i, l).as_bytes()).map_err(|e| format!("{:?}", e))?); }
-    let cfg = r#"{"characterDefinitionFile":"char.def","inputTextPlugin":[{"class":"com.worksap.nlp.sudachi.DefaultInputTextPlugin"}],"oovProviderPlugin":[{"class":"com.worksap.nlp.sudachi.SimpleOovPlugin","oovPOS":["名詞","普通名詞","一般","*","*","*"],"leftId":0,"rightId":0,"cost":20000}]}"#;
-    dicts::load(cfg, &res, sys, users).map(Rc::new).map_err(|e| format!("{:?}", e))
+    let cfg = r#"{"characterDefinitionFile":"char.def","inputTextPlugin":[{"class":"com.worksap.nlp.sudachi.DefaultInputTextPlugin"}],"oovProviderPlugin":[{"class":"com.worksap.nlp.sudachi.SimpleOovPlugin","oovPOS":["名詞","普通名詞","一般","*","*","*"],"leftId":0,"rightId":0,"cost":20000}],"pathRewritePlugin":[REWRITE]}"#;
+    let cfg = cfg.replace("REWRITE", rewrite);
+    dicts::load(&cfg, &res, sys, users).map(Rc::new).map_err(|e| format!("{:?}", e))
 }
 
 fn world_json(layers: &[Vec<W>]) -> Value {
@@ -114,6 +120,23 @@ pub fn record(args: &[String]) -> i32 {
             for t in ["xyzzz", "あxzz", "xyzzzあxzz", "ＸＹＺzz", "𠮷あxyz"] { run += 1; record_text(&mut tr, run, &dict, t, true); }
         }
         Err(e) => { eprintln!("MC dictionary failed: {}", e); return 2; }
+    }
+    // (1b) a compound with declared units at the start of a run that a path-rewrite plugin merges: the merged token declares nothing
+    {
+        let sys = vec![w("アイ", vec![], vec![]), w("アイウ", vec![], vec![]), w("アイウアイ", vec![(0, 1), (0, 0)], vec![(0, 1), (0, 0)]), w("x", vec![], vec![]),
+            w("xアイ", vec![(0, 3), (0, 0)], vec![])];
+        let layers = vec![sys];
+        let rewrite = r#"{"class":"com.worksap.nlp.sudachi.JoinKatakanaOovPlugin","oovPOS":["名詞","普通名詞","一般","*","*","*"],"minLength":3}"#;
+        match load_with(&layers, rewrite) {
+            Ok(dict) => {
+                tr.emit(json!({"ev": "world", "run": run + 1, "dict": world_json(&layers)}));
+                for (i, t) in ["アイウアイエ", "アイウアイ", "エアイウアイ", "アイウアイァ", "アイウアイエxアイ", "xアイエ", "xアイ", "アイウアイx", "アイエ", "エアイ"].iter().enumerate() {
+                    run += 1;
+                    record_text(&mut tr, run, &dict, t, i % 2 == 0);
+                }
+            }
+            Err(e) => { eprintln!("plugin dictionary failed: {}", e); return 2; }
+        }
     }
     // (2) generated dictionaries
     let base_letters = ["a", "b", "c", "あ", "い", "東", "京", "1", "é"];
